@@ -9,6 +9,10 @@ Three legs, all exhaustive inside the stated bounds, all on the real classes of 
      min(age, ttl+1)).  Oracle per step: return value, eviction report (callbacks), and after the step all
      read-only observers (sizes, byte total, key order, items, membership) equal the reference; capacity
      invariants; zero capacity => disabled; observers must not change the state.
+     Configuration dimension of the TTL caches: LRUCache is built through every documented constructor spelling
+     (max_entries|capacity x ttl_s|ttl_sec|ttl) for every (capacity, ttl) incl. the zeros, and a ttl of 0 ("never
+     expires") is exercised with a far clock advance (1e9 s; entry ages near/far are part of the canonical state) so
+     that a substituted default period shows.
 (E3b) schedule exploration (mc.sched): 2-3 real threads x 1-2 operations on colliding keys through
      ThreadSafeCache / ThreadSafeBytesCache with an injected InstrumentedRLock and line-level scheduling
      points inside cache.py / lru_bytes.py / lru_det.py, every schedule with <= B preemptions.  Oracle: the
@@ -243,8 +247,9 @@ class RefNS:
         return n
 
     def age(self, ts):
+        """canonical age class of an entry stamped ``ts`` (used for the model's AND the real object's entries)"""
         if not self.ttl:
-            return 0
+            return 0 if (self.clock.t - ts) < FAR_ADVANCE else FAR_ADVANCE
         return min(self.clock.t - ts, self.ttl + 1)
 
     def canon(self):
@@ -537,13 +542,28 @@ def _ns_state_check(c: "Chk", nsobj, model_ns: RefNS, label: str = "") -> None:
     that makes them diverge instead of at whatever later read happens to expose it"""
     got = _ns_state(nsobj, model_ns)
     exp = [(k, e[1], model_ns.age(e[0])) for k, e in model_ns.d.items()]
+    if not model_ns.ttl:
+        # no expiry: what the real object keeps as the time stamp of an entry has no documented meaning (the near/far
+        # class is part of the canonical state only so that the explorer reads old entries, it is not demanded)
+        got = [g[:2] + (0,) for g in got]
+        exp = [x[:2] + (0,) for x in exp]
     ok = len(got) == len(exp) and all(key_matches(g[0], x[0]) and g[1:] == x[1:] for g, x in zip(got, exp))
     if not ok:
         c.bad("state", "%sstored (key, value, age) oldest->newest = %r, reference model says %r" % (label, got, exp))
 
 
+# 'ttl = 0 means no expiry' is a statement about EVERY clock advance: one far advance (about 31 years of the injected
+# clock) reaches beyond any built-in default / fallback period that an implementation might substitute for a configured
+# zero.  With ttl = 0 the age of an entry is canonicalised to the two classes near (< FAR_ADVANCE) / far (>= FAR_ADVANCE)
+# -- NOT to a single class: the explorer merges histories by canonical state, and only a state in which the stored
+# entries ARE old gets its own node and therefore its own reads.
+FAR_ADVANCE = 10 ** 9
+
+
 def _advances(ttl: int):
-    return [1] if not ttl else sorted({1, ttl, ttl + 1})
+    if not ttl:
+        return [1, FAR_ADVANCE]
+    return sorted({1, ttl, ttl + 1})
 
 
 class NamespaceSys(_Sys):
@@ -614,11 +634,20 @@ class NamespaceSys(_Sys):
         return [_ns_canon(w.impl, w.model), w.model.canon()]
 
 
-LRU_CTOR = {
-    "max_entries+ttl_s": lambda mx, ttl: {"max_entries": mx, "ttl_s": ttl},
-    "capacity+ttl_sec": lambda mx, ttl: {"capacity": mx, "ttl_sec": ttl},
-    "max_entries+ttl": lambda mx, ttl: {"max_entries": mx, "ttl": ttl},
-}
+# every documented spelling of the two settings ("max_entries/capacity, ttl_s/ttl_sec/ttl"), one alias per setting:
+# name -> keyword arguments.  Each spelling must build the SAME cache for the same (capacity, ttl), zero included.
+LRU_CAP_ALIASES = ("max_entries", "capacity")
+LRU_TTL_ALIASES = ("ttl_s", "ttl_sec", "ttl")
+LRU_CTOR_PRIMARY = "max_entries+ttl_s"
+
+
+def _lru_ctor(ca: str, ta: str):
+    def kw(mx, ttl):
+        return {ca: mx, ta: ttl}
+    return kw
+
+
+LRU_CTOR = {"%s+%s" % (ca, ta): _lru_ctor(ca, ta) for ca in LRU_CAP_ALIASES for ta in LRU_TTL_ALIASES}
 
 
 class LRUCacheSys(_Sys):
@@ -1027,7 +1056,10 @@ def make_system(desc: dict):
 
 def e1_systems(thorough: bool) -> List[dict]:
     """quick: 3 keys, 2 values per key; thorough = quick + a wider alphabet (4th key, larger caps, cost 3, ttl 2)
-    with one value per key where the graph would otherwise explode (value replacement is covered by the quick part)"""
+    with one value per key where the graph would otherwise explode (value replacement is covered by the quick part).
+    TTL containers: ttl = 0 systems carry the far clock advance (FAR_ADVANCE) and the near/far age class per entry.
+    LRUCache: all 6 constructor spellings (2 capacity aliases x 3 TTL aliases) x capacity {0,1,2} x ttl {0,1}
+    (quick tier: (2, 1) only through the spelling the engine uses)."""
     out: List[dict] = []
     two = ["", "'"]
     # ---- quick part -------------------------------------------------------------------------------
@@ -1040,10 +1072,13 @@ def e1_systems(thorough: bool) -> List[dict]:
             out.append({"sys": "nscache", "mx": mx, "ttl": ttl, "keys": keys, "vals": two})
     # LRUCache keys: a string, a tuple, an unhashable list (identified by its canonical JSON)
     lkeys = ["a", ["~t", "v", 1], ["c"]]
+    # constructor spelling x (capacity, ttl) incl. the zeros: the spelling the engine uses gets the full grid, every other
+    # spelling everything but the largest graph (2, 1) in the quick tier -- in particular capacity 0 and ttl 0 through
+    # every alias
     for ctor in sorted(LRU_CTOR):
         for mx in (0, 1, 2):
             for ttl in (0, 1):
-                if ctor != "max_entries+ttl_s" and (mx, ttl) not in ((1, 1), (2, 0)):
+                if ctor != LRU_CTOR_PRIMARY and (mx, ttl) == (2, 1) and not thorough:
                     continue
                 out.append({"sys": "lrucache", "ctor": ctor, "mx": mx, "ttl": ttl, "keys": lkeys, "vals": two})
     mkeys = [["~t", "v", "a"], ["~t", "v", {"q": 1}]]
@@ -1076,10 +1111,11 @@ def e1_systems(thorough: bool) -> List[dict]:
     lkeys4 = lkeys + [{"x": 1, "y": [2]}]
     for mx in (1, 2, 3):
         for ttl in (0, 1, 2):
-            out.append({"sys": "lrucache", "ctor": "max_entries+ttl_s", "mx": mx, "ttl": ttl, "keys": lkeys4,
+            out.append({"sys": "lrucache", "ctor": LRU_CTOR_PRIMARY, "mx": mx, "ttl": ttl, "keys": lkeys4,
                         "vals": two if mx < 3 else [""]})
-    for ctor in ("capacity+ttl_sec", "max_entries+ttl"):
-        out.append({"sys": "lrucache", "ctor": ctor, "mx": 2, "ttl": 2, "keys": lkeys, "vals": two})
+    for ctor in sorted(LRU_CTOR):
+        if ctor != LRU_CTOR_PRIMARY:
+            out.append({"sys": "lrucache", "ctor": ctor, "mx": 2, "ttl": 2, "keys": lkeys, "vals": two})
     mkeys3 = mkeys + ["plain"]
     for mx, ttl, vals in ((2, 1, two), (2, 2, [""]), (1, 2, two), (3, 0, [""])):
         out.append({"sys": "cachemgr", "mx": mx, "ttl": ttl, "nss": ["n1", "n2"], "keys": mkeys if vals == two else mkeys3, "vals": vals})
@@ -1606,8 +1642,11 @@ def _seams():
 
 def run(run: Run) -> None:
     _seams()
-    run.rule = ("E1: per container x capacity/TTL/flag setting, BFS over all operation histories to closure of the canonical state "
-                "graph (non-trivial = transition that changes the canonical state); E3b: per wrapper x program (2-3 threads x 1-2 ops), "
+    run.rule = ("E1: per container x capacity/TTL/flag setting (zeros included; LRUCache additionally x every constructor spelling "
+                "{max_entries,capacity} x {ttl_s,ttl_sec,ttl}), BFS over all operation histories to closure of the canonical state "
+                "graph; clock advances {1, ttl, ttl+1} resp., for ttl = 0 ('never expires'), {1, 1e9} s with the entry ages "
+                "kept in the canonical state as near/far "
+                "(non-trivial = transition that changes the canonical state); E3b: per wrapper x program (2-3 threads x 1-2 ops), "
                 "every schedule with <= bound preemptions at lock and line granularity (non-trivial = execution with >= 1 preemption); "
                 "E2: per merge input, every permutation of the worker list x every insertion order (non-trivial = >1 worker or conflicting keys)")
     run.notes["sched_selftest"] = sched.selftest()
@@ -1634,7 +1673,12 @@ def run(run: Run) -> None:
                "expiry is lazy (on read), an expired but unread entry still occupies its slot (anchor: 'TTL on read')")
     run.assume("LRUBytes: a zero cap in ONE dimension means 'no limit in that dimension' (t1/t2 build the cache when either cap is > 0); "
                "both zero = disabled; an item above a positive byte cap is rejected without any change")
-    run.assume("clock: monotone, integer-valued advances from {1, ttl, ttl+1}; ages above ttl are canonicalised to ttl+1")
+    run.assume("clock: monotone, integer-valued advances from {1, ttl, ttl+1} (ttl > 0) resp. {1, 1e9} (ttl = 0); ages above ttl are "
+               "canonicalised to ttl+1; when ttl = 0 ages are canonicalised to the two classes < 1e9 / >= 1e9 (a substituted expiry "
+               "period of 1e9 s or more would not show)")
+    run.assume("LRUCache constructor: one alias per setting is passed (max_entries|capacity, ttl_s|ttl_sec|ttl); an explicitly passed "
+               "value, 0 included, is the configured value.  Precedence between SEVERAL aliases given at once and the defaults "
+               "used when a setting is omitted are not documented and not checked")
     run.assume("threads: preemption only at lock acquisitions and at source-line boundaries inside cache.py, lru_bytes.py, lru_det.py "
                "(a data race inside one source line, e.g. `x += 1`, is not visible); preemption bound as stated per program")
     run.assume("what a zero-capacity TTL cache reports as 'evicted' (set() return / stats) is unspecified and not compared")
